@@ -247,6 +247,25 @@ func NAME(a int, b int) (res int) {
 	return t.Get(a)
 }
 `))
+	// comparisons against large literals whose result is used as a VALUE (returned, stored,
+	// right operand of && in a value context), not by a branch
+	n = next()
+	out = append(out, tmpl(n, SigII, true, []string{"compare-as-value", "closure-val"}, []string{"gt" + n}, `func gtNAME(x int) bool {
+	return x > `+c("1000", "2500")+`
+}
+
+func NAME(a int, b int) (res int) {
+	pred := func(v int) bool { return v >= `+c("4096", "300")+` }
+	ok := b > 100 && a+b != `+c("5000", "777")+`
+	flags := []bool{gtNAME(a), pred(b), ok, a == `+c("65536", "99")+`}
+	for i, f := range flags {
+		if f {
+			res += 1 << i
+		}
+	}
+	return res
+}
+`))
 	// two back edges that update the loop variable differently
 	n = next()
 	out = append(out, tmpl(n, SigXI, true, []string{"multi-latch", "loop-continue"}, nil, `func NAME(xs []int, n int) (res int) {
@@ -679,6 +698,48 @@ func NAME(a int, b int) (res int) {
 	}
 	out = append(out, mk("multi-latch/other-back-edge-value", SigXI, []string{"multi-latch", "loop-continue"}, ml("100"), ml("101")))
 	out = append(out, mk("multi-latch/other-back-edge-param", SigXI, []string{"multi-latch", "loop-continue"}, ml("n + 50"), ml("n + 60")))
+	// ... and in a value that is no literal at all (both are available in the body already)
+	ml2 := func(v string) string {
+		return `func NAME(xs []int, n int) (res int) {
+	m := h1(n, 3)
+	i := 0
+	for i < len(xs) {
+		tick()
+		if xs[i] >= 0 {
+			res += xs[i]
+			i++
+			continue
+		}
+		res--
+		i = ` + v + `
+	}
+	return res*1000 + i + m
+}
+`
+	}
+	out = append(out, mk("multi-latch/other-back-edge-nonliteral", SigXI, []string{"multi-latch", "loop-continue"}, ml2("n"), ml2("m")))
+	// a callee edit that only changes the type argument of a generic whose type parameter
+	// occurs in neither parameters nor results (the instantiated signatures are identical)
+	ph := func(t string) string {
+		return `func isNAME[T any](v any) bool {
+	_, ok := v.(T)
+	return ok
+}
+
+func NAME(a int, b int) (res int) {
+	var v any = a
+	if b&1 == 1 {
+		v = "s"
+	}
+	if isNAME[` + t + `](v) {
+		res = 7
+	}
+	return res + b
+}
+`
+	}
+	out = append(out, mk("generic-instance/phantom-type-argument", SigII, []string{"generic", "own-generic"}, ph("int"), ph("string")))
+
 	// float constants that agree to six significant digits (a %.6g rendering merges them)
 	fcl := func(k string) string {
 		return `func NAME(x float64, y float64) (res int) {
